@@ -206,25 +206,21 @@ func ScanFooter(options *StoreOptions, fref *FileRef, fileName string,
 			if err = binary.Read(b, StoreEndian, &offset); err != nil {
 				return nil, err
 			}
-			if offset != pos {
-				return nil, fmt.Errorf("store: offset mismatch, "+
-					"wanted: %v != found: %v", offset, pos)
-			}
-
 			var length1 uint32
 			if err = binary.Read(b, StoreEndian, &length1); err != nil {
 				return nil, err
 			}
-			if length1 != length {
-				return nil, fmt.Errorf("store: length mismatch, "+
-					"wanted: %v != found: %v", length1, length)
-			}
 
 			f := &Footer{refs: 1, fileName: fileName, filePos: offset}
 
-			err = json.Unmarshal(data[:content], f)
-			if err != nil {
-				return nil, err
+			if offset != pos || length1 != length ||
+				json.Unmarshal(data[:content], f) != nil {
+				// The beginning and the end look like a footer but the
+				// parts do not fit together, e.g. after a torn write
+				// of a footer that spans several sectors or pages: not
+				// a complete footer, so keep scanning.
+				pos -= int64(StorePageSize)
+				continue
 			}
 
 			// json.Unmarshal would have just loaded the map.
